@@ -66,6 +66,9 @@ def get_table(ctx, rep, rule):
                 return pv[pdu]
             if n is not None and (is_len_of(t, "vars") or (t[0] == "call" and t[1] == "len" and flow.mentions(t[2][0], lambda s: s[0] == "f" and s[2] == "vars"))):
                 return n
+            # slice patterns (`match vars.as_slice() { [] => .., [v] => .. }`) test the slice's length metadata
+            if n is not None and t[0] == "un" and t[1] == "PtrMetadata" and flow.mentions(t[2], lambda s: s[0] == "f" and s[2] == "vars"):
+                return n
             if val is not None and is_value_discr(t):
                 return vv[val]
             return None
@@ -92,8 +95,9 @@ def get_table(ctx, rep, rule):
         p = callee_path(b.term) or ""
         if "snmp::value::SnmpValue" in p and p.endswith("::into_pyobject"):
             t = prov.operand(b.term["args"][0])
-            ok = t[0] == "f" and t[2] == "value" and flow.mentions(t, lambda s: s[0] == "call" and (s[1] or "").endswith("::index") and s[2][1:] == (("const", 0),)) \
-                and flow.mentions(t, lambda s: s[0] == "f" and s[2] == "vars")
+            first = flow.mentions(t, lambda s: s[0] == "call" and (s[1] or "").endswith("::index") and s[2][1:] == (("const", 0),)) or \
+                flow.mentions(t, lambda s: s[0] == "idx" and s[2] == ("const", 0))
+            ok = t[0] == "f" and t[2] == "value" and first and flow.mentions(t, lambda s: s[0] == "f" and s[2] == "vars")
             rep.check(rule, "OpGet::to_python|converted-value", ok, "resp.vars[0].value", "get() converts %s" % flow.fmt(t),
                       body.loc(b.term["line"]), obligation=True)
 
@@ -120,7 +124,22 @@ def many_table(ctx, rep, rule):
         return cells.tags(body, blocks)
 
     nexts = {b.idx for b in body.calls() if (callee_path(b.term) or "").endswith("Iterator>::next")}
+    setters = [b for b in body.calls() if (callee_path(b.term) or "").endswith("::set_item")]
+    through_filter = bool(setters) and all(flow.mentions(prov.operand(b.term["args"][2]), lambda s: s[0] == "call" and (s[1] or "").endswith("::filter"))
+                                            for b in setters if len(b.term["args"]) > 2)
+
+    def vcell(k):
+        def ev(t):
+            if is_value_discr(t):
+                return vv[k]
+            return None
+        return ev
     for k in ["Null"] + EXC_KINDS:
+        if through_filter and cells.filter_verdict(facts, body, prov, vcell(k)) is False:
+            # the varbinds are drawn through Iterator::filter and the closure rejects this kind: left out, iteration goes on
+            rep.ok(rule, "OpGetMany::to_python|GetResponse/" + k, "%s is dropped by the filter closure" % k, body.loc(), obligation=True)
+            rep.ok(rule, "OpGetMany::to_python|GetResponse/%s/later-varbinds-still-read" % k, "filter() continues with the next varbind", body.loc(), obligation=True)
+            continue
         tg = cell("GetResponse", k)
         rep.check(rule, "OpGetMany::to_python|GetResponse/" + k, not cells.has_call(tg, "::set_item") and cells.has_call(tg, "PyDict::new"),
                   "%s is left out of the dict" % k, "a varbind carrying %s is inserted into the result dict" % k, body.loc(), obligation=True)
@@ -142,7 +161,8 @@ def many_table(ctx, rep, rule):
                   body.loc(), obligation=True)
     for k in DATA_KINDS:
         tg = cell("GetResponse", k)
-        rep.check(rule, "OpGetMany::to_python|GetResponse/" + k, cells.has_call(tg, "::set_item"),
+        kept = not through_filter or cells.filter_verdict(facts, body, prov, vcell(k)) is not False
+        rep.check(rule, "OpGetMany::to_python|GetResponse/" + k, cells.has_call(tg, "::set_item") and kept,
                   "%s is stored" % k, "a varbind carrying %s never reaches the result dict" % k, body.loc(), obligation=True)
     tg = cell("Report")
     rep.check(rule, "OpGetMany::to_python|Report", outcome(tg) == {"err:AuthenticationFailed"} and not cells.has_call(tg, "::set_item"),
